@@ -1,5 +1,5 @@
 """C07  Chord recognition inverts construction (mingus/core/chords.py determine*)."""
-from vf.claim import Claim, assume, enum, fork, pick, raises_, real
+from vf.claim import Claim, assume, enum, fork, pick, raises_, real, warm_cold
 from vf.ref import chords as RC
 from vf.ref import theory as T
 
@@ -54,6 +54,26 @@ def c07_recognise(ri: int, k: int) -> bool:
             if long[idx] == root + " " + RC.MEANINGS[suffix] + ORD[k]:
                 found = True
     return found
+
+
+BIG = [x for x in ["M13", "13", "m13", "M11", "m11", "11", "7#11", "hendrix", "M9", "6/9"] if len(chords.from_shorthand("C" + x)) >= 5]
+
+
+def c07_history(ri: int, bi: int, k: int, w: int, short: bool) -> bool:
+    """recognition does not depend on what was recognised before: after a larger chord was analysed, every five-note
+    window of every rotation of it (what the larger analysis looks at internally) is analysed as in the initial state"""
+    root = pick(["C", "F#", "Bb"], ri)
+    big = chords.from_shorthand(root + pick(BIG, bi))
+    n = len(big)
+    assume(0 <= k < n)
+    k = enum(k, 0, 7)
+    rot = big[k:] + big[:k]
+    assume(n >= 5)
+    w = enum(w, 0, 3)
+    assume(w + 5 <= n)
+    win = rot[w : w + 5]
+    short = fork(short)
+    return warm_cold(lambda: (chords.determine(list(big), True), chords.determine(list(big), False)), lambda: chords.determine(list(win), short))
 
 
 def c07_trivial(i: int, j: int) -> bool:
@@ -111,6 +131,8 @@ def claims(tier):
     q = tier == "quick"
     cl = []
     roots = NAT7 if q else ROOTS21
+    for bi in range(len(BIG)):
+        cl.append(Claim("history[%s]" % BIG[bi], c07_history, params={"bi": bi}, group="c07_history", pre=[lambda ri, bi, k, w: 0 <= ri < (1 if q else 3) and bi == P["bi"] and 0 <= k < 7 and 0 <= w < 3], timeout=900 if q else 3000, per_path=120, bounds="after analysing %s on %d root(s): every 5-note window of every rotation, shorthand and long form, equals its analysis in the initial state" % (BIG[bi], 1 if q else 3)))
     for sh in SH:
         cl.append(Claim("recognise[%s]" % sh, c07_recognise, params={"sh": sh, "roots": roots}, group="c07_recognise", pre=[lambda ri, k: 0 <= ri < len(P["roots"]) and 0 <= k < 7], timeout=900 if q else 3000, per_path=120, bounds="shorthand %r x %d roots x every rotation x {shorthand, long form}" % (sh, len(roots))))
     if not q:
